@@ -1,0 +1,116 @@
+//go:build verif
+
+package file
+
+import (
+	"fmt"
+	"os"
+	"path/filepath"
+	"strconv"
+	"strings"
+	"sync"
+	"syscall"
+	"time"
+)
+
+// VerifHook, when set (in-process harness), is called at every named point
+// before the file-system step the point names. It may block (scheduler gate).
+var VerifHook func(point string, path string)
+
+// Without a VerifHook the points obey the environment (binary harness):
+//
+//	VERIF_TRACE=<file>                  append one JSON line per point
+//	VERIF_CRASH_AT=<point>@<base>#<n>   SIGKILL self at the n-th visit of point for file base
+//	VERIF_SIGNAL_AT=<point>@<base>#<n>:<INT|TERM|QUIT>
+//	                                    send that signal to self there and wait until the
+//	                                    signal handler has cancelled the context
+var (
+	verifOnce    sync.Once
+	verifMtx     sync.Mutex
+	verifCounts  = map[string]int{}
+	verifSeq     int
+	verifTraceFp *os.File
+	verifCrashAt string
+	verifSigAt   string
+	verifSig     syscall.Signal
+	verifSigSeen = make(chan struct{})
+	verifSigOnce sync.Once
+)
+
+func verifBase(path string) string {
+	b := filepath.Base(path)
+	if strings.HasPrefix(b, ".") {
+		b = b[1:]
+		for _, s := range []string{LockFileSuffix, TempFileSuffix} {
+			b = strings.TrimSuffix(b, s)
+		}
+		if strings.HasSuffix(b, RLockFileSuffix) {
+			b = strings.TrimSuffix(b, RLockFileSuffix)
+			if i := strings.LastIndex(b, "."); 0 <= i {
+				b = b[:i]
+			}
+		}
+	}
+	return b
+}
+
+func verifInit() {
+	if p := os.Getenv("VERIF_TRACE"); p != "" {
+		verifTraceFp, _ = os.OpenFile(p, os.O_CREATE|os.O_WRONLY|os.O_APPEND, 0600)
+	}
+	verifCrashAt = os.Getenv("VERIF_CRASH_AT")
+	if s := os.Getenv("VERIF_SIGNAL_AT"); s != "" {
+		if i := strings.LastIndex(s, ":"); 0 < i {
+			verifSigAt = s[:i]
+			switch s[i+1:] {
+			case "TERM":
+				verifSig = syscall.SIGTERM
+			case "QUIT":
+				verifSig = syscall.SIGQUIT
+			default:
+				verifSig = syscall.SIGINT
+			}
+		}
+	}
+}
+
+func VerifPoint(point string, path string) {
+	verifPoint(point, path)
+}
+
+func verifPoint(point string, path string) {
+	if h := VerifHook; h != nil {
+		h(point, path)
+		return
+	}
+	verifOnce.Do(verifInit)
+
+	if point == "signal.seen" {
+		verifSigOnce.Do(func() { close(verifSigSeen) })
+	}
+	if verifTraceFp == nil && verifCrashAt == "" && verifSigAt == "" {
+		return
+	}
+
+	verifMtx.Lock()
+	key := point + "@" + verifBase(path)
+	verifCounts[key]++
+	id := key + "#" + strconv.Itoa(verifCounts[key])
+	verifSeq++
+	if verifTraceFp != nil {
+		_, _ = fmt.Fprintf(verifTraceFp, "{\"pid\":%d,\"seq\":%d,\"point\":%q,\"base\":%q,\"id\":%q}\n", os.Getpid(), verifSeq, point, verifBase(path), id)
+	}
+	verifMtx.Unlock()
+
+	if verifCrashAt != "" && id == verifCrashAt {
+		_ = syscall.Kill(os.Getpid(), syscall.SIGKILL)
+		select {}
+	}
+	if verifSigAt != "" && id == verifSigAt {
+		_ = syscall.Kill(os.Getpid(), verifSig)
+		select {
+		case <-verifSigSeen:
+		case <-time.After(5 * time.Second):
+		}
+	}
+}
